@@ -4,6 +4,7 @@ import Drv.Slice
 import Drv.Bonf
 import Drv.DepGraph
 import Drv.EnvP
+import Drv.RunCmd
 open Lean
 
 def dispatch (model : String) (j : Json) : Except String Json :=
@@ -14,6 +15,7 @@ def dispatch (model : String) (j : Json) : Except String Json :=
   | "bonf" => Drv.Bonf.run j
   | "depgraph" => Drv.DepGraph.run j
   | "envp" => Drv.EnvP.run j
+  | "runcmd" => Drv.RunCmd.run j
   | "diagreads" => Drv.Diag.runReads j
   | _ => throw s!"bad-model {model}"
 
